@@ -110,12 +110,12 @@ package boltz
 //@   requires query != nil && scanner.store != nil
 //@   requires scanner.offset == 0 && scanner.count == 0
 //@   modifies *
-//@   lensures[count] result2 == nil && cursor != nil ==> result1 == cnt(curSeq[cursor], query, scanner.store, curLen[cursor])
+//@   ensures[count] result2 == nil && provCursor(cursorProvider, true) != 0 ==> result1 == cnt(curSeq[provCursor(cursorProvider, true)], query, scanner.store, curLen[provCursor(cursorProvider, true)])
 //@   invariant[paging] 1: scanner.targetOffset == ite(old(qHasSkip[query]), max(old(qSkip[query]), 0), 0) && scanner.targetLimit == ite(old(qHasLimit[query]) && old(qLimit[query]) >= 0, old(qLimit[query]), MaxInt64)
 //@   invariant[window] 1: maxResults == min(MaxInt64, scanner.targetOffset + scanner.targetLimit)
 //@   invariant[tree-size] 1: treeLen[results] == min(scanner.count, maxResults)
 //@   invariant[count] 1: 0 <= curPos[cursor] && curPos[cursor] <= curLen[cursor] && curLen[cursor] < MaxInt64 && 0 <= scanner.count && scanner.count <= curPos[cursor] && scanner.count == cnt(curSeq[cursor], query, scanner.store, curPos[cursor])
-//@   invariant 1: cursor != nil && rowCursor != nil && scanner.store != nil && results != nil
+//@   invariant 1: cursor != nil && ref(cursor) == provCursor(cursorProvider, true) && rowCursor != nil && scanner.store != nil && results != nil
 
 //@ func (*sortingScanner).ScanCursor$1
 //@   props C02
